@@ -58,18 +58,23 @@ def withFp (c : Ctx) (ms : List Matcher) (req : List Bool) (col : String) (main 
 def stepFilter (col : String) (step : Int) (cmp : Expr → Expr → Expr) (bound : Int) : Expr :=
   or_ [eq (.raw (col ++ " % " ++ toString step)) (.int 0), cmp (.raw (col ++ " % " ++ toString step)) (.int bound)]
 
-/-- `processHints` -/
+/-- the lookback delta of the engine the router builds (`const lookbackDeltaMs`) -/
+def lookbackMs : Int := 300000
+
+/-- `processHints` (after `fix: a stepped range query hands the engine the last sample of every step bucket with its own time
+    …` and `fix: the range-vector sample filter is not applied to the instant selector of a sub-query`) -/
 def processHints (h : Hints) (q : Sel) : Sel :=
   let q1 :=
-    if instantFns.contains h.func || h.func == "" then
+    if (instantFns.contains h.func || h.func == "") && h.rangeMs == 0 && lookbackMs % h.stepMs == 0 then
       (Sel.mk [] false
         [.raw "fingerprint", simpleCol "argMax(spls.value, spls.timestamp_ms)" "value",
-         simpleCol ("intDiv(spls.timestamp_ms - " ++ toString h.startMs ++ " + " ++ toString h.stepMs ++ " - 1, " ++
-           toString h.stepMs ++ ") * " ++ toString h.stepMs ++ " + " ++ toString h.startMs) "timestamp_ms"]
-        (some (.withRef (.named "spls"))) [] none none [.raw "timestamp_ms", .raw "fingerprint"] none
-        [.orderBy (.raw "fingerprint") .asc, .orderBy (.raw "timestamp_ms") .asc] none).with_ [(.named "spls", q)]
+         simpleCol "max(spls.timestamp_ms)" "last_ms"]
+        (some (.withRef (.named "spls"))) [] none none
+        [.raw ("intDiv(spls.timestamp_ms - " ++ toString h.startMs ++ " + " ++ toString h.stepMs ++ " - 1, " ++
+           toString h.stepMs ++ ")"), .raw "fingerprint"] none
+        [.orderBy (.raw "fingerprint") .asc, .orderBy (.raw "last_ms") .asc] none).with_ [(.named "spls", q)]
     else q
-  if rangeFns.contains h.func && decide (h.stepMs > h.rangeMs) then
+  if rangeFns.contains h.func && decide (h.rangeMs > 0) && decide (h.stepMs > h.rangeMs) then
     -- after `fix: the range-vector sample filter follows the windows the engine evaluates`
     q1.andWhere [le (.raw ("(timestamp_ms - " ++ toString h.startMs ++ ") % " ++ toString h.stepMs)) (.int h.rangeMs)]
   else q1
